@@ -180,7 +180,10 @@ def ref_value(arg):
         if tag == "#synced":
             return ref_value(arg[1])
         if tag == "#dictk":
-            return {ref_value(k): ref_value(v) for k, v in arg[1]}
+            def hk(k):
+                k = ref_value(k)
+                return tuple(k) if isinstance(k, list) else k
+            return {hk(k): ref_value(v) for k, v in arg[1]}
         if tag == "#bad":
             return arg
         raise ValueError(arg)
@@ -202,7 +205,34 @@ def bad_value(name):
         return Unserializable
     if name == "func":
         return len
+    if name == "instance":
+        return _Custom()
+    if name == "mapping-badkey":
+        return _BadKeyMapping()
     raise ValueError(name)
+
+
+class _Custom:
+    def __init__(self):
+        self.x = 1
+
+
+import collections.abc as _abc
+
+
+class _BadKeyMapping(_abc.Mapping):
+    """A user-defined Mapping whose only key is not a string."""
+
+    def __getitem__(self, k):
+        if k == 1:
+            return 0
+        raise KeyError(k)
+
+    def __iter__(self):
+        return iter([1])
+
+    def __len__(self):
+        return 1
 
 
 # --------------------------------------------------------------------------------------
